@@ -17,7 +17,7 @@ EXPLANATION = (
     'user callback; R04.g crux-provided futures keep the poll\'s waker; R04.h done / event / notify_shell / request_from_shell / '
     'stream_from_shell make exactly the one context call they stand for, on every path, with their own argument; R04.i every task leaving a command wakes its join handles. '
     'Equivalence to the reference semantics, the algebraic laws and the behaviour of then_request/then_stream under every resolution '
-    'order quantify over expressions x schedules and are NOT decided. R04.j a hosted command returns Pending only after both output queues were found empty and ends only when done (shared with C07 R07.e). R04.m the closure given to the `new` of a builder only builds the future: no notify_shell, send_event or spawn (which act at the call) in its own body, in crux_core and the capability crates. R04.l each chaining method is built on the adaptor that gives its documented order, judged over its whole family (body, closures, builder functions it calls): a request chained to a request or to a stream goes through a sequential stage (`then`) and no concurrent or flattening adaptor; streams chained to a stream are flattened concurrently (`flatten_unordered`) and never serially.')
+    'order quantify over expressions x schedules and are NOT decided. R04.j a hosted command returns Pending only after both output queues were found empty and ends only when done (shared with C07 R07.e). R04.n the body of a combinator never drives an operand (is_done, effects, events, settle, poll_next): composing runs nothing. R04.m the closure given to the `new` of a builder only builds the future: no notify_shell, send_event or spawn (which act at the call) in its own body, in crux_core and the capability crates. R04.l each chaining method is built on the adaptor that gives its documented order, judged over its whole family (body, closures, builder functions it calls): a request chained to a request or to a stream goes through a sequential stage (`then`) and no concurrent or flattening adaptor; streams chained to a stream are flattened concurrently (`flatten_unordered`) and never serially.')
 
 HOST = 'crux_core::command::stream::CommandStreamExt::host'
 POLL = 'core::future::future::Future::poll'
@@ -503,6 +503,22 @@ def check(ctx, rep):
                    'Command::all does not spawn every item of its argument (iterator adapted or spawn outside the loop)')
     counts = c01.check_linear(rep, core, 'default', rid='R04.c', only=lambda f, ty: 'crux_core::command::Command<' in ty)
     check_builders(rep, core)
+    # R04.n: composing commands runs nothing: the body of a combinator (not the task it creates) never drives one of its operands — is_done(),
+    # effects(), events(), run_until_settled() and poll_next all run the operand's tasks up to their first await, so `a.then(b)` would start b
+    # before a has finished
+    rep.rule('R04.n', 'a combinator does not run its operands while composing them (no is_done / effects / events / settle in its own body)', floor=6)
+    DRIVES = ['crux_core::command::Command::is_done', 'crux_core::command::Command::effects', 'crux_core::command::Command::events',
+              'crux_core::command::Command::run_until_settled', 'futures_core::stream::Stream::poll_next', 'futures_util::stream::stream::StreamExt::poll_next_unpin',
+              'crux_core::command::Command::run_task', 'crux_core::command::Command::spawn_new_tasks']
+    from rules.props import c06 as _c06
+    from rules.common import Summaries as _Sm
+    _smn = _Sm([core])
+    for name_ in _c06.COMBINATORS:
+        for f_ in [x for x in core.built if x.kind == 'AssocFn' and x.name == name_ and path_matches(x.assoc.get('self_adt'), 'crux_core::command::Command')]:
+            drv = _smn.sites(f_, DRIVES, 'may')
+            rep.expect('R04.n', not drv, 'Command::%s|composes-only' % name_, 'builds the combined command without running anything',
+                       'Command::%s drives one of its operands while composing (%s): the operand\'s tasks run up to their first await before the '
+                       'combined command is ever polled — `then` would start its second part before the first has finished' % (name_, [f_.where(b) for b in drv]))
     rep.rule('R04.m', 'a builder\'s make-task closure only builds its future: notifications, events and spawns happen when the future runs', floor=10)
     check_builders_lazy(rep, 'R04.m', [c_ for c_ in (core, ctx.crate('default', 'crux_http'), ctx.crate('default', 'crux_kv'), _CTX['time']) if c_ is not None])
     rep.rule('R04.l', 'each chaining method is built on the adaptor that gives its documented order: sequential for a chained request, concurrent for chained streams', floor=3)
